@@ -73,13 +73,19 @@ class OtherBase(BaseException):
     pass
 
 
-def _make_exc(kind, i, ncatch):
+# the same roles played by BUILT-IN exception classes (their instances have no __dict__ slot for weak references, cannot
+# carry arbitrary attributes in all cases, compare by identity): the most common exceptions in real code
+FAMILY = {False: (CaughtA, CaughtB, SubA, Uncaught), True: (ValueError, KeyError, UnicodeError, TypeError)}
+
+
+def _make_exc(kind, i, ncatch, builtin=False):
+    caught_a, caught_b, sub_a, uncaught = FAMILY[bool(builtin)]
     if kind == "caught":
-        return (CaughtB if (ncatch == 2 and i % 2 == 1) else CaughtA)(i)
+        return (caught_b if (ncatch == 2 and i % 2 == 1) else caught_a)(i)
     if kind == "sub":
-        return SubA(i)
+        return sub_a(i)
     if kind == "uncaught":
-        return Uncaught(i)
+        return uncaught(i)
     if kind == "cancel":
         return asyncio.CancelledError(i)
     if kind == "base":
@@ -195,7 +201,7 @@ def run_case(case) -> Outcome:
             v = ("value", i)
             produced.append(v)
             return v
-        e = _make_exc(kind, i, ncatch)
+        e = _make_exc(kind, i, ncatch, case.get("builtin"))
         produced.append(e)
         raise e
 
@@ -210,19 +216,18 @@ def run_case(case) -> Outcome:
         delay = int(dk["v"]) if dk["k"] == "int" else float(dk["v"])
     else:
         delay = delay_fn
-    cat = {"CaughtA": CaughtA, "CaughtB": CaughtB}
-    classes_ = [CaughtA, CaughtB][:ncatch]
+    fam = FAMILY[bool(case.get("builtin"))]
+    classes_ = list(fam[:2])[:ncatch]
     if case["catching"] == "class":
-        catching = CaughtA
+        catching = fam[0]
     elif case["catching"] == "tuple":
         catching = tuple(classes_)
     elif case["catching"] == "set":
         catching = set(classes_)
     elif case["catching"] == "tuple_cancel":
-        catching = (CaughtA, asyncio.CancelledError)
+        catching = (fam[0], asyncio.CancelledError)
     else:
         catching = None
-    del cat
 
     def decorate(fn):
         if case["bare"]:
@@ -391,6 +396,12 @@ def enumerate_cases(tier):
     for seq in itertools.product(OUTCOMES, repeat=3):
         for variant in ("sync", "async"):
             yield _case(variant, True, 1, "default", 1, {"k": "none"}, seq)
+    # built-in exception classes in every role (limit 1, every outcome script, every caught-set form and delay kind)
+    for seq in itertools.product(OUTCOMES, repeat=3):
+        for catching, ncatch in (("default", 1), ("class", 1), ("tuple", 2), ("set", 2)):
+            for delay in ({"k": "none"}, {"k": "float", "v": 0.5}, {"k": "fn"}):
+                for variant in ("sync", "async"):
+                    yield {**_case(variant, False, 1, catching, ncatch, delay, seq), "builtin": True}
     # two overlapping calls of one wrapped async function (limit 1..2, every pair of short outcome scripts)
     short = ["ok", "caught", "uncaught"]
     for limit in (1, 2):
@@ -411,7 +422,8 @@ def strategy(tier):
         catching, ncatch = draw(st.sampled_from(CATCHINGS))
         args = draw(st.lists(st.one_of(st.integers(-2, 2), st.text(max_size=2), st.none()), max_size=3))
         kwargs = draw(st.dictionaries(st.sampled_from(["k", "x", "y"]), st.integers(0, 3), max_size=2))
-        return _case(
+        builtin = draw(st.sampled_from([False, False, True]))
+        return {"builtin": builtin, **_case(
             draw(st.sampled_from(["sync", "async"])),
             draw(st.booleans()) and draw(st.booleans()),
             limit,
@@ -421,7 +433,7 @@ def strategy(tier):
             seq,
             args,
             kwargs,
-        )
+        )}
 
     return cases()
 
